@@ -40,6 +40,10 @@ def elements(cell, tdim):
     E["sym_P"] = lambda: SymmetricElement(sym2, [P(2), P(1), P(3)])
     E["sym_RT"] = lambda: SymmetricElement(sym2, [RT(), RT(), RT()])
     E["mixed_sym_P"] = lambda: MixedElement([SymmetricElement(sym2, [P(3), P(3), P(3)]), P(1)])
+    voigt = {(0, 0): 0, (1, 1): 1, (0, 1): 2, (1, 0): 2}          # insertion order is not row-major
+    E["sym_voigt_P"] = lambda: SymmetricElement(voigt, [P(2), P(1), P(3)])
+    E["sym_voigt_N1"] = lambda: SymmetricElement(voigt, [N1(), N1(), N1()])
+    E["mixed_sym_voigt"] = lambda: MixedElement([P(1), SymmetricElement(voigt, [P(1), P(2), P(1)])])
     sym3 = {(0,): 0, (1,): 1, (2,): 0}
     E["sym_vec_N1"] = lambda: SymmetricElement(sym3, [N1(), N1()])
     return E
